@@ -981,7 +981,10 @@ def random_programs(ctx, objdir, runtime):
     with open(cfile, "w") as f:
         for p, t, src, out in keep:
             f.write(to_json(p) + "\n")
+    import time
+    t0 = time.time()
     r = ctx.tlc("CSem", "MC_CSem.cfg", workers=16, env={"C_PROGS": cfile}, timeout=1500, heap="4g")
+    ctx.cov["seconds_csem"] = round(time.time() - t0, 1)
     if not r.ok:
         raise vlib.MachineryError("CSem.tla failed:\n" + r.out[-3000:])
     exp = {}
@@ -1048,7 +1051,9 @@ def random_programs(ctx, objdir, runtime):
             for pid, (p, t, src, out) in sample:
                 fc.write(to_json(p) + "\n")
                 fq.write(json.dumps(ilprep.prep(ilparse.parse(out))) + "\n")
+        t0 = time.time()
         rr = ctx.tlc("Refine", "MC_Refine.cfg", workers=16, env={"C_PROGS": c2, "QBE_PROGS": q2}, timeout=2400, heap="4g")
+        ctx.cov["seconds_refine"] = round(time.time() - t0, 1)
         if not rr.ok:
             raise vlib.MachineryError("Refine.tla failed:\n" + rr.out[-3000:])
         verd = {json.loads(v)["pid"]: json.loads(v) for v in rr.vcases}
